@@ -353,6 +353,7 @@ func New(bindAddr, advAddr, clusterName, nodeName string, f getClusterInfo) (*Cl
 		msgs:       cluster.msgs,
 		infoF:      f,
 	}
+	verifMemberlist(mcfg)
 	// init view
 	ml, err := memberlist.Create(mcfg)
 	if err != nil {
